@@ -1,0 +1,57 @@
+/*
+ * Verification trace hooks (compiled in only with -DOPENSMT_VERIF).
+ * Events are written, one s-expression per line, to the file named by the
+ * environment variable OPENSMT_VERIF_TRACE; nothing is written when it is unset.
+ */
+#ifndef OPENSMT_VERIFTRACE_H
+#define OPENSMT_VERIFTRACE_H
+#ifdef OPENSMT_VERIF
+
+#include <cstdio>
+#include <cstdlib>
+#include <string>
+
+namespace opensmt::veriftrace {
+
+inline FILE * file() {
+    static FILE * f = [] {
+        char const * p = std::getenv("OPENSMT_VERIF_TRACE");
+        FILE * r = (p and *p) ? std::fopen(p, "a") : nullptr;
+        if (r) { std::setvbuf(r, nullptr, _IOLBF, 0); }
+        return r;
+    }();
+    return f;
+}
+
+inline bool on() { return file() != nullptr; }
+
+// Writes "(<kind> <instance> (<l1> <l2> ...))" with DIMACS-style literals (var+1, negative = negated)
+template<typename TLits> void clause(char const * kind, void const * instance, TLits const & lits) {
+    FILE * f = file();
+    if (not f) { return; }
+    std::string s = "(";
+    s += kind;
+    char buf[32];
+    std::snprintf(buf, sizeof buf, " %p (", instance);
+    s += buf;
+    bool first = true;
+    for (auto l : lits) {
+        if (not first) { s += ' '; }
+        first = false;
+        s += std::to_string(sign(l) ? -(var(l) + 1) : (var(l) + 1));
+    }
+    s += "))\n";
+    std::fputs(s.c_str(), f);
+}
+
+inline void line(std::string const & s) {
+    FILE * f = file();
+    if (not f) { return; }
+    std::fputs(s.c_str(), f);
+    std::fputc('\n', f);
+}
+
+} // namespace opensmt::veriftrace
+
+#endif // OPENSMT_VERIF
+#endif // OPENSMT_VERIFTRACE_H
